@@ -137,7 +137,17 @@ def _session(rng, prog, per, ending):
                 while j < len(prog) and rng.random() < 0.5:
                     extra.append(prog[j])
                     j += 1
-            script.append(rng.choice(['', ' ', '\t']) + ' '.join(render_cmd(c) for c in line + extra))
+            lead = rng.choice(['', ' ', '\t'])
+            if rng.random() < 0.3:
+                # text before the first command of a line has no effect (the line is parsed on its own): dots,
+                # hearts, ?/!, foreign text, plain Hangul, stray end syllables
+                lead += ''.join(rng.choice(['.', '…', '♥', '💖', '?', '!', 'zz', '가', '엉', ' ', '잠']) for _ in range(rng.randint(1, 5))) + ' '
+                stats['lines_with_leading_noise'] = stats.get('lines_with_leading_noise', 0) + 1
+            trail = ''
+            if rng.random() < 0.15:
+                # a start syllable with no end syllable later IN THIS LINE is filler too
+                trail = ' ' + rng.choice(['혀', '하', '흐', '끝 혀', 'end'])
+            script.append(lead + ' '.join(render_cmd(c) for c in line + extra) + trail)
             ev = []
             o, e = ''.join(lo), ''.join(le)
             if o:
